@@ -127,3 +127,21 @@ Definition RFC_GUID : bytes :=   (* "258EAFA5-E914-47DA-95CA-C5AB0DC85B11" *)
 
 Definition accept_spec (key : bytes) : bytes :=
   Base64Spec.encode_spec (Sha1Spec.sha1_spec (key ++ RFC_GUID)).
+
+(* ---- a handler that stops after n messages and drops the stream: the part of the script it gets to see ----
+   the shortest prefix containing n complete messages (everything up to the first Close, or the whole script, if there
+   are fewer) *)
+Fixpoint cut_after (n : nat) (fs : list frame) : list frame :=
+  match n with
+  | O => []
+  | S n' =>
+    match fs with
+    | [] => []
+    | f :: r =>
+      match fopcode f with
+      | Close => [f]
+      | Ping | Pong => f :: cut_after n r
+      | _ => if fin f then f :: cut_after n' r else f :: cut_after n r
+      end
+    end
+  end.
